@@ -63,6 +63,15 @@ def list_sort(I, v, args, kw):
 
 def build():
     C = ContractSet("C01", "Event dispatch is complete, priority-ordered and serial")
+    C.finite_checks.append(common.native_demo_check(
+        'c01_queue_callback_before_transitive_posts.py',
+        'the completion callback of a QUEUE event runs only after the events its handlers posted have been dispatched'))
+    C.finite_checks.append(common.native_demo_check(
+        'c01_queue_event_overtaken.py',
+        "a queue event posted by a handler is dispatched before an event that was already waiting (and before the parent's callback)"))
+    C.finite_checks.append(common.native_demo_check(
+        'c01_event_dropped_at_post_time.py',
+        'an event posted before its only handler is registered - but dispatched after - is delivered to that handler'))
     C.namedtuple(EV, "RegisteredHandler")
     C.namedtuple(EV, "PostedEvent")
     C.namedtuple(EV, "EventHandlerKey")
